@@ -263,4 +263,19 @@ theorem mid_update_unfixed_witness :
     (Sdp.midUpdateUnfixed true 0 65535 (Buf.ofList []) 0).isPanic = true ∧
     (Sdp.midUpdateUnfixed false 3 65535 (Buf.ofList []) 0).isPanic = false := by decide +kernel
 
+/-- `UdtlReceiveBuffer::try_deliver` is total for **every delivery history** (sequence numbers with wrap-around,
+duplicates, gaps): `flush_contiguous` / `flush_buffer` / `cleanup_stale` terminate, and the out-of-order buffer never
+holds more than `max_size` entries — a peer cannot grow it by sending far-ahead sequence numbers. -/
+theorem udptl_deliver_history_total (maxSize expected0 : Nat) (ops : List (Nat × Nat)) (b : Buf) (n : Nat) (s : String)
+    (hm : maxSize < 65536) :
+    Media.deliverRun { expected := expected0, maxSize := maxSize } ops b n ≠ .panic s ∧
+    ∀ r b' n', Media.deliverRun { expected := expected0, maxSize := maxSize } ops b n = .ok r b' n' →
+      ∀ d ∈ r, ∀ cnt, d[2]? = some cnt → cnt ≤ maxSize := by
+  have h := Media.deliverRun_safe ops { expected := expected0, maxSize := maxSize } b n (by simp) hm
+  refine ⟨safe_noPanic h s, ?_⟩
+  intro r b' n' hr
+  unfold safe at h
+  rw [hr] at h
+  exact h
+
 end RtcModel.Theorems.C07
